@@ -231,6 +231,358 @@ def systematic_programs():
     return progs
 
 
+# ------------------------------------------------------------------ third round: statements that occur MORE THAN ONCE, and
+# assignments whose first occurrence is inside a block (variable promotion)
+# meta kinds added: ("rep", canonical text)  - a statement drawn WITH repetition from a small pool; the C++ lines it must
+#                                             become are learnt from a reference run of the statement alone
+#                   ("asg", name, value)    - an assignment `name = <literal>` (value = its normalised C spelling) or
+#                                             `name += k` / `name = name + k` (value None: any right-hand side)
+REP_POOL = [
+    f"pin_mode({O0}7,{O1}OUTPUT{O0})", f"pin_mode({O0}7,{O1}INPUT{O0})", f"pin_mode({O0}7,{O1}OUTPUT{O0})", f"pin_mode({O0}8,{O1}INPUT_PULLUP{O0})",
+    f"pin_mode({O0}8,{O1}OUTPUT{O0})", f"digital_write({O0}7,{O1}HIGH{O0})", f"digital_write({O0}7,{O1}LOW{O0})", f"digital_write({O0}8,{O1}HIGH{O0})",
+    f"analog_write({O0}5,{O1}128{O0})", f"analog_write({O0}5,{O1}0{O0})", "led.on()", "led.off()", "led.toggle()",
+    f"mon.write({O0}1{O0})", f"mon.write({O0}\"go\"{O0})", f"sleep({O0}20{O0})", f"x{O1}={O1}0", f"x{O1}={O1}1", f"x{O1}+={O1}1",
+]
+REP_PRELUDE = ["from Reduino.Core import pin_mode, digital_write, analog_write, OUTPUT, INPUT, INPUT_PULLUP, HIGH, LOW"] + PRELUDE
+
+
+def _prelude_tops(prelude):
+    return [("imp", s) if s.startswith("from ") else ("chain", [("leaf", s, ("plain",))]) for s in prelude]
+
+
+def split_chains(nodes):
+    """top level of a script: one ("chain", ...) item per statement - an if with its elif / else, a try with its handlers"""
+    out = []
+    for n in nodes:
+        if n[0] == "block" and n[1] in CONT and out:
+            out[-1][1].append(n)
+        else:
+            out.append(("chain", [n]))
+    return out
+
+
+def rep_leaf(rng, pool):
+    t = rng.choice(pool)
+    return ("leaf", t, ("rep", canon_spacing(t)))
+
+
+def gen_rep_body(rng, pool, depth, maxdepth, n=None):
+    out = []
+    for _ in range(n if n is not None else rng.randint(1, 4)):
+        if depth >= maxdepth or rng.random() < 0.6:
+            if rng.random() < 0.08:
+                out.append(("leaf", "pass", ("allowed", "pass")))
+            else:
+                out.append(rep_leaf(rng, pool))
+            continue
+        r = rng.random()
+        k = rng.randint(2, 9)
+        if r < 0.4:
+            out.append(("block", "if", f"if{M1}x{O1}>{O1}{k}{O0}:", gen_rep_body(rng, pool, depth + 1, maxdepth)))
+            if rng.random() < 0.4:
+                out.append(("block", "elif", f"elif{M1}x{O1}>{O1}{k - 1}{O0}:", gen_rep_body(rng, pool, depth + 1, maxdepth)))
+            if rng.random() < 0.5:
+                out.append(("block", "else", f"else{O0}:", gen_rep_body(rng, pool, depth + 1, maxdepth)))
+        elif r < 0.6:
+            out.append(("block", "for", f"for{M1}i{depth}{M1}in{M1}range({O0}{k % 4 + 1}{O0}){O0}:", gen_rep_body(rng, pool, depth + 1, maxdepth)))
+        elif r < 0.8:
+            out.append(("block", "while", f"while{M1}x{O1}<{O1}{k}{O0}:",
+                        gen_rep_body(rng, pool, depth + 1, maxdepth) + [("leaf", f"x{O1}+={O1}1", ("rep", "x += 1"))]))
+        else:
+            out.append(("block", "try", f"try{O0}:", gen_rep_body(rng, pool, depth + 1, maxdepth)))
+            out.append(("block", "except", rng.choice([f"except{M1}Exception{O0}:", f"except{O0}:"]), gen_rep_body(rng, pool, depth + 1, maxdepth)))
+    return out
+
+
+def gen_rep_program(rng, maxdepth=2):
+    """statements drawn with repetition from a pool of 3-6 texts: the same statement several times in setup (top level and
+    nested), in a function body and in the main loop, typically with other statements on the same pin in between"""
+    pool = rng.sample(REP_POOL, rng.randint(3, 6))
+    tops = _prelude_tops(REP_PRELUDE)
+    if rng.random() < 0.4:
+        tops.append(("def", f"def{M1}fn0({O0}){O0}:", gen_rep_body(rng, pool, 1, maxdepth)))
+    for _ in range(rng.randint(1, 3)):
+        tops += split_chains(gen_rep_body(rng, pool, 0, maxdepth, n=rng.randint(2, 5)))
+    if rng.random() < 0.6:
+        tops.append(("main", f"while{M1}True{O0}:", gen_rep_body(rng, pool, 1, maxdepth)))
+    return tops
+
+
+def systematic_rep_programs():
+    """every ordered triple over {pin_mode(7, OUTPUT), pin_mode(7, INPUT), digital_write(7, HIGH)} with at least one repetition,
+    in setup / nested in a setup block of each kind / in the main loop / in a function; and the same statement k = 2, 3 times"""
+    import itertools
+    a, b, c = f"pin_mode({O0}7,{O1}OUTPUT{O0})", f"pin_mode({O0}7,{O1}INPUT{O0})", f"digital_write({O0}7,{O1}HIGH{O0})"
+    seqs = [t for t in itertools.product((a, b, c), repeat=3) if len(set(t)) < 3]
+    progs = []
+
+    def leafs(ts):
+        return [("leaf", t, ("rep", canon_spacing(t))) for t in ts]
+    wraps = [lambda ns: ns,
+             lambda ns: [ns[0], ("block", "if", f"if{M1}x{O1}>{O1}1{O0}:", ns[1:])],
+             lambda ns: [ns[0], ("block", "for", f"for{M1}i0{M1}in{M1}range({O0}2{O0}){O0}:", ns[1:])],
+             lambda ns: [ns[0], ns[1], ("block", "try", f"try{O0}:", [ns[2]]), ("block", "except", f"except{O0}:", [ns[1]])],
+             lambda ns: [("block", "while", f"while{M1}x{O1}<{O1}2{O0}:", ns + [("leaf", f"x{O1}+={O1}1", ("rep", "x += 1"))])]]
+    for i, sq in enumerate(seqs):
+        w = wraps[i % len(wraps)]
+        place = (i // len(wraps)) % 3
+        tops = _prelude_tops(REP_PRELUDE)
+        if place == 0:
+            tops += split_chains(w(leafs(sq)))
+        elif place == 1:
+            tops += split_chains(leafs(sq[:1]))
+            tops.append(("main", f"while{M1}True{O0}:", w(leafs(sq))))
+        else:
+            tops.append(("def", f"def{M1}fn0({O0}){O0}:", w(leafs(sq))))
+            tops += split_chains(leafs(sq[1:]) + [("leaf", f"fn0({O0})", ("plain",))])
+        progs.append(tops)
+    # every statement of the pool twice in a row and once more after another statement - in setup, in the main loop, in a function
+    pool = list(dict.fromkeys(REP_POOL))
+    seq = []
+    for i, t in enumerate(pool):
+        seq += leafs([t, t, pool[(i + 1) % len(pool)], t])
+    for place in range(3):
+        tops = _prelude_tops(REP_PRELUDE)
+        if place == 0:
+            tops += split_chains(seq)
+        elif place == 1:
+            tops.append(("main", f"while{M1}True{O0}:", seq))
+        else:
+            tops.append(("def", f"def{M1}fn0({O0}){O0}:", seq))
+            tops += split_chains([("leaf", f"fn0({O0})", ("plain",))])
+        progs.append(tops)
+    # the same COMPOUND statement twice in a row (same header, same body), each block kind, in setup and in the main loop
+    inner = leafs([a, c])
+    twice = []
+    for blk in ([("block", "if", f"if{M1}x{O1}>{O1}1{O0}:", inner)],
+                [("block", "if", f"if{M1}x{O1}>{O1}1{O0}:", inner), ("block", "else", f"else{O0}:", leafs([b]))],
+                [("block", "for", f"for{M1}i0{M1}in{M1}range({O0}2{O0}){O0}:", inner)],
+                [("block", "while", f"while{M1}x{O1}<{O1}2{O0}:", inner + [("leaf", f"x{O1}+={O1}1", ("rep", "x += 1"))])],
+                [("block", "try", f"try{O0}:", inner), ("block", "except", f"except{O0}:", leafs([b]))]):
+        twice += blk + blk
+    for place in range(2):
+        tops = _prelude_tops(REP_PRELUDE)
+        if place == 0:
+            tops += split_chains(twice)
+        else:
+            tops.append(("main", f"while{M1}True{O0}:", twice))
+        progs.append(tops)
+    return progs
+
+
+# assignments: (python literal, normalised C spelling, type)
+ASG_VALUES = {"int": [("0", "0"), ("0", "0"), ("5", "5"), ("-1", "-1"), ("12", "12")],
+              "float": [("0.0", "0.0"), ("0.0", "0.0"), ("2.5", "2.5")],
+              "bool": [("False", "false"), ("False", "false"), ("True", "true")],
+              "str": [('""', '""'), ('""', '""'), ('"s"', '"s"')]}
+ASG_DEFAULT = {"int": ("0", "0"), "float": ("0.0", "0.0"), "bool": ("False", "false"), "str": ('""', '""')}
+
+
+class _AsgState:
+    def __init__(self, prefix):
+        self.prefix, self.n, self.types = prefix, 0, {}
+
+    def fresh(self, rng):
+        self.n += 1
+        name = f"{self.prefix}{self.n}"
+        self.types[name] = rng.choice(["int", "int", "int", "float", "bool", "str"])
+        return name
+
+
+def _asg_leaf(name, pyval, cval):
+    return ("leaf", f"{name}{O1}={O1}{pyval}", ("asg", name, cval))
+
+
+def _asg_bump(name, ty):
+    if ty == "int":
+        return ("leaf", f"{name}{O1}+={O1}1", ("asg", name, None))
+    if ty == "float":
+        return ("leaf", f"{name}{O1}={O1}{name}{O1}+{O1}0.5", ("asg", name, None))
+    if ty == "bool":
+        return ("leaf", f"{name}{O1}={O1}True", ("asg", name, "true"))
+    return ("leaf", f"{name}{O1}={O1}\"s\"", ("asg", name, '"s"'))
+
+
+def _asg_cond(name, ty):
+    # bool / str names: the condition reads x (`not b` / `s == ""` are respelt by the expression layer - not C07's business)
+    return {"int": f"{name}{O1}<{O1}2", "float": f"{name}{O1}<{O1}1.0", "bool": f"x{O1}<{O1}2", "str": f"x{O1}<{O1}1"}[ty]
+
+
+def gen_asg_body(rng, st, cnt, depth, maxdepth, defined, n=None):
+    """defined: names assigned earlier on the way to this point (list, grows); returns the nodes"""
+    out = []
+    for _ in range(n if n is not None else rng.randint(1, 3)):
+        r = rng.random()
+        if depth < maxdepth and r < 0.30:
+            # THE shape: default-valued (or not) initialisations directly in front of a compound statement that changes them
+            names = [st.fresh(rng) if (rng.random() < 0.7 or not defined) else rng.choice(defined) for _ in range(rng.choice([1, 1, 2, 3]))]
+            names = list(dict.fromkeys(names))
+            for nm in names:
+                py, cv = ASG_DEFAULT[st.types[nm]] if rng.random() < 0.7 else rng.choice(ASG_VALUES[st.types[nm]])
+                out.append(_asg_leaf(nm, py, cv))
+                if nm not in defined:
+                    defined.append(nm)
+            nm = names[0]
+            ty = st.types[nm]
+            inner = gen_asg_body(rng, st, cnt, depth + 1, maxdepth, defined, n=rng.randint(0, 2)) + [_asg_bump(n2, st.types[n2]) for n2 in names]
+            kind = rng.choice(["while", "while", "if", "for", "try"]) if ty in ("int", "float") else rng.choice(["while", "if", "for", "try"])
+            if kind == "while":
+                out.append(("block", "while", f"while{M1}{_asg_cond(nm, ty)}{O0}:", inner))
+            elif kind == "if":
+                out.append(("block", "if", f"if{M1}{_asg_cond(nm, ty)}{O0}:", inner))
+                if rng.random() < 0.4:
+                    out.append(("block", "else", f"else{O0}:", gen_asg_body(rng, st, cnt, depth + 1, maxdepth, defined, n=1)))
+            elif kind == "for":
+                out.append(("block", "for", f"for{M1}i{depth}{M1}in{M1}range({O0}2{O0}){O0}:", inner))
+            else:
+                out.append(("block", "try", f"try{O0}:", inner))
+                out.append(("block", "except", f"except{M1}Exception{O0}:", gen_asg_body(rng, st, cnt, depth + 1, maxdepth, defined, n=1)))
+        elif depth < maxdepth and r < 0.50:
+            k = cnt.next()
+            kind = rng.choice(["for", "for", "while", "if", "try"])
+            body = gen_asg_body(rng, st, cnt, depth + 1, maxdepth, defined)
+            if kind == "for":
+                out.append(("block", "for", f"for{M1}i{depth}{M1}in{M1}range({O0}{k % 3 + 2}{O0}){O0}:", body))
+            elif kind == "while":
+                out.append(("block", "while", f"while{M1}x{O1}<{O1}{k}{O0}:", body + [("leaf", f"x{O1}+={O1}1", ("plain",))]))
+            elif kind == "if":
+                out.append(("block", "if", f"if{M1}x{O1}>{O1}{k}{O0}:", body))
+                if rng.random() < 0.5:
+                    out.append(("block", "elif", f"elif{M1}x{O1}>{O1}{k - 50}{O0}:", gen_asg_body(rng, st, cnt, depth + 1, maxdepth, defined)))
+                if rng.random() < 0.5:
+                    out.append(("block", "else", f"else{O0}:", gen_asg_body(rng, st, cnt, depth + 1, maxdepth, defined)))
+            else:
+                out.append(("block", "try", f"try{O0}:", body))
+                out.append(("block", "except", f"except{O0}:", gen_asg_body(rng, st, cnt, depth + 1, maxdepth, defined, n=1)))
+        elif r < 0.70 or not defined:
+            nm = st.fresh(rng) if (rng.random() < 0.6 or not defined) else rng.choice(defined)
+            py, cv = rng.choice(ASG_VALUES[st.types[nm]])
+            out.append(_asg_leaf(nm, py, cv))
+            if nm not in defined:
+                defined.append(nm)
+        elif r < 0.82:
+            nm = rng.choice(defined)
+            out.append(_asg_bump(nm, st.types[nm]))
+        else:
+            k = cnt.next()
+            out.append(("leaf", f"mon.write({O0}{k}{O0})", ("mark", k)))
+    return out
+
+
+def gen_asg_program(rng, maxdepth=3):
+    """assignments to fresh names at every depth (first assignment inside for / while / try / if bodies, so that the parser
+    promotes the name), with default (0, 0.0, False, "") and other values, directly in front of compound statements and
+    elsewhere, re-assigned later; each section (setup, a function, the main loop) has its own names"""
+    cnt = Counter()
+    tops = _prelude_tops(PRELUDE)
+    if rng.random() < 0.5:
+        st = _AsgState("f")
+        tops.append(("def", f"def{M1}fn0({O0}){O0}:", gen_asg_body(rng, st, cnt, 1, maxdepth, [], n=rng.randint(1, 3))))
+    st = _AsgState("s")
+    defined = []
+    for _ in range(rng.randint(1, 3)):
+        tops += split_chains(gen_asg_body(rng, st, cnt, 0, maxdepth, defined, n=1))
+    if rng.random() < 0.7:
+        st = _AsgState("m")
+        tops.append(("main", f"while{M1}True{O0}:", gen_asg_body(rng, st, cnt, 1, maxdepth, [], n=rng.randint(1, 3))))
+    return tops
+
+
+def systematic_asg_programs(per=8):
+    """for every type and every outer block kind (for / while / try / if) x inner compound kind (while / if / for / try) x
+    {default, non-default} value: `<outer>: v = <value>; <inner using v>: bump v` - `per` such units per program, in
+    setup / the main loop / a function"""
+    units = []
+    i = 0
+    for ty in ("int", "float", "bool", "str"):
+        for outer in ("for", "while", "try", "if"):
+            for inner in ("while", "if", "for", "try"):
+                for (py, cv) in (ASG_DEFAULT[ty], ASG_VALUES[ty][-1]):
+                    i += 1
+                    nm = f"v{i}"
+                    bump = _asg_bump(nm, ty)
+                    ib = [("leaf", "led.toggle()", ("plain",)), bump]
+                    if inner == "while":
+                        inn = [("block", "while", f"while{M1}{_asg_cond(nm, ty)}{O0}:", ib)]
+                    elif inner == "if":
+                        inn = [("block", "if", f"if{M1}{_asg_cond(nm, ty)}{O0}:", ib)]
+                    elif inner == "for":
+                        inn = [("block", "for", f"for{M1}j{M1}in{M1}range({O0}2{O0}){O0}:", ib)]
+                    else:
+                        inn = [("block", "try", f"try{O0}:", ib), ("block", "except", f"except{O0}:", [("leaf", "pass", ("allowed", "pass"))])]
+                    body = [_asg_leaf(nm, py, cv)] + inn
+                    if outer == "for":
+                        out = [("block", "for", f"for{M1}i{M1}in{M1}range({O0}3{O0}){O0}:", body)]
+                    elif outer == "while":
+                        out = [("block", "while", f"while{M1}x{O1}<{O1}3{O0}:", body + [("leaf", f"x{O1}+={O1}1", ("plain",))])]
+                    elif outer == "try":
+                        out = [("block", "try", f"try{O0}:", body), ("block", "except", f"except{O0}:", [("leaf", "pass", ("allowed", "pass"))])]
+                    else:
+                        out = [("block", "if", f"if{M1}x{O1}<{O1}3{O0}:", body)]
+                    units.append(out)
+    progs = []
+    for at in range(0, len(units), per):
+        chunk = [n for u in units[at: at + per] for n in u]
+        place = (at // per) % 3
+        tops = _prelude_tops(PRELUDE)
+        if place == 0:
+            tops += split_chains(chunk)
+        elif place == 1:
+            tops.append(("main", f"while{M1}True{O0}:", chunk))
+        else:
+            tops.append(("def", f"def{M1}fn0({O0}){O0}:", chunk))
+            tops.append(("chain", [("leaf", f"fn0({O0})", ("plain",))]))
+        progs.append(tops)
+    return progs
+
+
+def well_formed(tops):
+    """every generated name (f1, s2, m3, v4 ...) is assigned textually before it is read in a header or bumped - the
+    shrinker must not turn a script into one that reads a name it never assigned"""
+    import re
+    rx = re.compile(r"\b[fsmv]\d+\b")
+    seen = set()
+
+    def walk(ns):
+        for i, n in enumerate(ns):
+            if n[0] == "block" and n[1] == "try" and not (i + 1 < len(ns) and ns[i + 1][0] == "block" and ns[i + 1][1] == "except"):
+                return False                        # a try statement needs a handler to be Python at all
+            if n[0] == "leaf":
+                meta = n[2] if len(n) > 2 else ("plain",)
+                if meta[0] == "asg":
+                    if meta[2] is None and meta[1] not in seen:
+                        return False
+                    seen.add(meta[1])
+                continue
+            if any(v not in seen for v in rx.findall(canon_spacing(n[2]))):
+                return False
+            if not walk(n[3]):
+                return False
+        return True
+    for t in tops:
+        if t[0] == "chain":
+            if not walk(t[1]):
+                return False
+        elif t[0] in ("main", "def"):
+            if t[0] == "def":
+                keep, seen = seen, set()
+                ok = walk(t[2])
+                seen = keep
+            else:
+                ok = walk(t[2])
+            if not ok:
+                return False
+    return True
+
+
+def rep_texts(tops):
+    return sorted({meta[1] for _, meta, _ in leaves(tops) if meta[0] == "rep"})
+
+
+def asg_names(tops):
+    return {meta[1] for _, meta, _ in leaves(tops) if meta[0] == "asg"}
+
+
 def skeleton_size(tops):
     def sz(ns):
         return sum(1 + (sz(n[3]) if n[0] == "block" else 0) for n in ns)
